@@ -247,4 +247,48 @@ def run(prog: Program, chk: Check):
         lo, hi = flow.count_on_paths(g, send_ids, starts, [h.id], follow=lambda e: e.src != h.id)
         R6.decide(hi <= 1, fkey(fm, f"loop:{norm(lp.iter) if isinstance(lp, ast.For) else norm(lp.test)}"), where(fm, lp),
                   f"at most one send per iteration (min {lo}, max {hi})", f"up to {hi} sends to the same recipient in one iteration")
+    # the chained recipient list has no duplicate: under ARBITRARY control frames a module is never registered for a
+    # type and for ALL at once (manager-only exploration shared with C02-M)
+    from .c02 import manager_closure
+
+    ns, nt, mviol = manager_closure(prog)
+    dbl = [v for v in mviol if v[0] == "double"]
+    R6.decide(not dbl, f"{MGR}::MessageManager|no-double-registration", where(prog.func(MGR, "MessageManager.add_subscription")),
+              f"{ns} manager states x every control frame: never registered for ALL and an individual type at once",
+              "a module can be registered for ALL_MESSAGE_TYPES and an individual type at once (duplicate delivery): " + (dbl[0][2] if dbl else ""))
+
+    # ---- R7 readiness is polled for every connection, in the round in which it is used ---------------------------------
+    R7 = chk.rule("C01-R7", "wlist is refreshed from a write-select over every connection before a round's frames are serviced", 2,
+                  "a connection left out of the poll is treated as 'cannot accept data' although it can: the message is dropped for a subscribed, writable module")
+    sel = [n for n in walk_local(runf.node) if isinstance(n, ast.Assign) and isinstance(n.value, ast.Call) and norm(n.value.func) == "select.select"
+           and any("self.wlist" in norm(t) for t in n.targets)]
+    okp = len(sel) == 1
+    src_txt = ""
+    if okp:
+        c = sel[0].value
+        w = c.args[1] if len(c.args) >= 2 else None
+        leaves = dataflow.source_closure(runf.node, w) if w is not None else set()
+        src_txt = ", ".join(sorted(leaves))
+        okp = leaves == {"self.modules"} and not any(isinstance(x, (ast.ListComp, ast.GeneratorExp)) and x.generators[0].ifs for x in ast.walk(w)) \
+            and (isinstance(w, ast.Call) or isinstance(w, ast.Attribute))
+        # filtered locals: a comprehension with a condition feeding the write set
+        for nm in [x.id for x in ast.walk(w) if isinstance(x, ast.Name)]:
+            for kind, rhs in dataflow.definitions(runf.node, nm):
+                if isinstance(rhs, (ast.ListComp, ast.GeneratorExp, ast.SetComp)) and any(g_.ifs for g_ in rhs.generators):
+                    okp = False
+                    src_txt += " (filtered)"
+    R7.decide(okp, fkey(runf, "write-select-covers-all"), where(runf, sel[0] if sel else runf.node), "write-select polls self.modules (every connection)",
+              f"the write-readiness poll covers only [{src_txt}] instead of every connection in self.modules")
+    if sel and pmn:
+        seln = [n for n in rg.nodes if n.ast is sel[0]]
+        tests = [n for n in rg.nodes if n.kind == "test" and any(e.dst == seln[0].id for e in rg.succ[n.id])] if seln else []
+        # the poll may only be skipped when there is nothing to service: its guard is the truthiness of the serviced list
+        svc = next((a for a in ancestors(pmn[0].ast) if isinstance(a, ast.For)), None)
+        L_ = norm(svc.iter) if svc is not None else "rlist"
+        empties = (L_, f"len({L_}) > 0", f"len({L_})", f"len({L_}) != 0")
+        cond_ok = all(norm(t.ast) in empties for t in tests)
+        R7.decide(bool(seln) and not flow.must_precede(rg, seln, pmn, follow=lambda e: not (e.cond is not None and norm(e.cond) in empties and e.pol is False)) and cond_ok,
+                  fkey(runf, "refreshed-before-servicing"), where(runf), "the poll runs before process_message in every round that services frames",
+                  "frames can be serviced in a round whose wlist was not refreshed (or the poll is skipped under an extra condition)")
+
     chk.units.update({"recipient_send_sites": len(sends), "range_gated_sites": len(targets), "dispatch_types": sorted(d.types)})
